@@ -323,7 +323,7 @@ def run(tier, out, replay=None):
         finally:
             common.cleanup(wd)
     generic_run(tier, out, "c05", FAMILIES, OPS, TRACE_INVS, ["StoredCanonical", "UpperBounds"], sim_n=(120, 1500), sim_depth=10,
-                walk_fams=("pubo", "quso"), walk_budget=(10000, 300000), mc_depth=(3, 4), replay=replay, extra_design=poly_laws)
+                walk_fams=("pubo", "quso"), walk_budget=(10000, 100000), mc_depth=(3, 4), replay=replay, extra_design=poly_laws)
     out.assumptions += ["integer coefficients in {-1,0,1} for edits; division only by divisors of every coefficient (exactness)",
                         "for two model operands of different classes only the value of the result is judged, not its class",
                         "the state of a quadratic-kind object after an in-place product that raised KeyError is not judged"]
